@@ -43,8 +43,8 @@ structure FState where
 inductive CaseSt where
   | fresh
   | framing (f : FState)
-  | rpc (kind : Kind) (r : Rpc)
-  | world (w : World)
+  | rpc (kind : Kind) (r : Rpc) (defs : Bool)      -- defs: definition lines are still accepted
+  | world (w : World) (defs : Bool)
 
 def expectTok (ts : List String) (want : String) : Except String (List String) :=
   match ts with
@@ -226,118 +226,186 @@ where
                              oracle := { f.oracle with valid := text :: f.oracle.valid } }, ["send"])
       | _ => .error s!"expected 'P send <hex> rt=1' got {impl}"
 
+/-! ### Rpc / world cases: callback scripts -/
+
+def digits? (w : String) (maxv : Nat) : Option Nat :=
+  let cs := w.toList
+  if cs.isEmpty || cs.length > 9 || !cs.all Char.isDigit then none
+  else
+    let v : Nat := cs.foldl (fun a c => a * 10 + (c.toNat - 48)) 0
+    if v ≤ maxv then some v else none
+
+def split2 (w : String) (sep : Char) : Option (String × String) :=
+  match w.splitOn (String.singleton sep) with
+  | [x, y] => some (x, y)
+  | _ => none
+
+/-- one act token -/
+def act? (w : String) : Option Act :=
+  if w == "x" then some .cleanup
+  else
+    let body := (w.drop 1).toString
+    match w.toList.head? with
+    | some 'q' => do let (c, m) ← split2 body '.'; let c ← digits? c 99; let m ← digits? m 7; some (.request c m)
+    | some 'n' => do let m ← digits? body 7; some (.notify m)
+    | some 'r' => do let (i, c) ← split2 body ':'; let i ← int32? i; let c ← int32? c; some (.respond i c)
+    | some 'c' => do let c ← int32? body; some (.respondCur c)
+    | some 'i' => do let (i, c) ← split2 body ':'; let i ← jsonInt? i; let c ← int32? c; some (.inject i c)
+    | some 'v' => do
+        let (m, h) ← split2 body ':'
+        let m ← digits? m 7
+        if h == "-" then some (.setService m none) else do let h ← digits? h 99; some (.setService m (some h))
+    | _ => none
+
+def ret? (w : String) : Option Ret :=
+  if w == "as" then some .async
+  else if w.startsWith "s" && w.length > 1 then (int32? (w.drop 1).toString).map .sync
+  else none
+
+/-- a definition line: the extended program -/
+def defLine? (p : Prog) (ws : List String) : Option Prog :=
+  match ws with
+  | "cb" :: acts => do
+      let as ← acts.mapM act?
+      if p.cbs.length < 16 then some { p with cbs := p.cbs ++ [as] } else none
+  | "hd" :: r :: acts => do
+      let r ← ret? r
+      let as ← acts.mapM act?
+      if p.hs.length < 16 then some { p with hs := p.hs ++ [{ acts := as, ret := r }] } else none
+  | _ => none
+
 def showEvs (es : List REv) : String :=
   if es.isEmpty then "-" else " ".intercalate (es.map fun
-    | .sent id => s!"s{id}"
-    | .fired t c => s!"f{t}:{c}")
+    | .sent id m => s!"s{id}:{m}"
+    | .fired t c => s!"f{t}:{c}"
+    | .called id h => s!"c{id}:{h}"
+    | .answered id c => s!"a{id}:{c}"
+    | .overflow => "overflow"
+    | .misuse => "misuse")
 
-def rpcTags (r : Rpc) (op : Op) (evs : List REv) : List String :=
-  let fired := evs.any (fun | .fired .. => true | _ => false)
-  let chained := evs.any (fun | .fired .. => false | _ => true) && fired
-  (match op with
-   | .request c => [if c then "req-chain" else "req"]
-   | .notify => ["notify"]
-   | .response id _ => [if fired then "rsp-hit" else if (respIdG true id).isNone then "rsp-id-beyond-int"
-                         else if (0 < id ∧ id ≤ (r.idAlloc : Int)) then "rsp-late-or-dup" else "rsp-unknown"]
-   | .tick => []) ++ (if chained then ["chained-request"] else [])
-
-def rpcOp (k : Kind) (r : Rpc) (ws : List String) (impl : String) :
-    Option (Except String (CaseSt × List String)) :=
-  let finish (r' : Rpc) (evs : List REv) (tags : List String) : Except String (CaseSt × List String) :=
-    let want := "P ev " ++ showEvs evs
-    if impl.trimAscii.toString = want then .ok (.rpc k r', tags) else .error s!"expected '{want}' got '{impl.trimAscii.toString}'"
+/-- an API op / arriving frame at one Rpc object (everything but `adv`) -/
+def peerOp? (ws : List String) : Option Op :=
   match ws with
-  | ["req", c] =>
-      if c == "0" || c == "1" then
-        let (r', evs) := step r (.request (c == "1"))
-        some (finish r' evs (rpcTags r (.request (c == "1")) evs))
-      else none
-  | ["note"] => let (r', evs) := step r .notify; some (finish r' evs ["notify"])
-  | ["rsp", id, code] => do
-      let id ← jsonInt? id; let code ← int32? code
-      let (r', evs) := step r (.response id code)
-      some (finish r' evs (rpcTags r (.response id code) evs))
-  | ["adv", ms] => do
-      let ms ← ms.toNat?
-      if ms > 100000 then none else
-      let (r', evs) := r.advance ms
-      let timeouts := evs.filter (fun | .fired _ c => c == kRequestTimeout | _ => false)
-      let tags := (if timeouts.isEmpty then (if r.timerOn then ["adv-no-timeout"] else ["adv-timer-off"]) else ["timeout-fired"]) ++
-                  (if !r.pending.isEmpty && r'.pending.isEmpty then ["all-completed"] else []) ++
-                  (if r.timerOn && !r'.timerOn then ["timer-disabled"] else []) ++
-                  (if evs.any (fun | .sent _ => true | _ => false) then ["chained-request"] else [])
-      some (finish r' evs tags)
+  | ["req", c, m] => do let c ← digits? c 99; let m ← digits? m 7; some (.request c m)
+  | ["note", m] => do let m ← digits? m 7; some (.notify m)
+  | ["rsp", id, code] => do let id ← jsonInt? id; let code ← int32? code; some (.response id code)
+  | ["inreq", id, m] => do let id ← int32? id; let m ← digits? m 7; some (.inRequest id m)
+  | ["srsp", id, code] => do let id ← int32? id; let code ← int32? code; some (.apiRespond id code)
+  | ["svc", m, h] => do
+      let m ← digits? m 7
+      if h == "-" then some (.setService m none) else do let h ← digits? h 99; some (.setService m (some h))
+  | ["cleanup"] => some .cleanup
   | _ => none
 
-def svcTok : Service → String
-  | .sync 0 => "s0"
-  | .sync 5 => "s5"
-  | .sync c => s!"s?{c}"
-  | .async => "as"
-  | .unknown => "no"
+def isFired : REv → Bool | .fired .. => true | _ => false
+def isSent : REv → Bool | .sent .. => true | _ => false
+def isAnswered : REv → Bool | .answered .. => true | _ => false
+def isCalled : REv → Bool | .called .. => true | _ => false
+def isTimeout : REv → Bool | .fired _ c => c == kRequestTimeout | _ => false
 
-def svc? : String → Option Service
-  | "s0" => some (.sync 0)
-  | "s5" => some (.sync 5)
-  | "as" => some .async
-  | "no" => some .unknown
-  | _ => none
+/-- distribution tags of one step of one object -/
+def opTags (pre : String) (r : Rpc) (op : Option Op) (r' : Rpc) (evs : List REv) : List String :=
+  let nfired := (evs.filter isFired).length
+  let t : List String :=
+    (match op with
+     | some (.request ..) => ["req"]
+     | some (.notify _) => ["notify"]
+     | some (.response id _) =>
+         [if nfired > 0 then "rsp-hit" else if (respIdG true id).isNone then "rsp-id-beyond-int"
+          else if (0 < id ∧ id ≤ (r.idAlloc : Int)) then "rsp-late-or-dup" else "rsp-unknown"]
+     | some (.inRequest id _) =>
+         [if r.dead then "inreq-dead" else if evs.any isCalled then (if id == 0 then "inreq-notification" else "inreq-served")
+          else "inreq-method-not-found"]
+     | some (.apiRespond id _) => [if id == 0 then "srsp-id0" else if r.srv.tobe.contains id then "srsp-awaited" else "srsp-unawaited"]
+     | some (.setService ..) => ["svc"]
+     | some .cleanup => ["top-cleanup"]
+     | _ => []) ++
+    (if evs.any isTimeout then ["timeout-fired"] else []) ++
+    (if evs.contains .misuse then ["misuse"] else []) ++
+    -- a completion callback ran inside another callback (an injected response hit)
+    (if nfired ≥ 2 && !(match op with | none => true | some .tick => true | _ => false) then ["nested-fire"] else []) ++
+    (if nfired ≥ 1 && (match op with | some (.inRequest ..) => true | _ => false) then ["nested-fire"] else []) ++
+    (if (match op with | some (.request ..) => false | some (.notify _) => false | _ => true) && evs.any isSent
+      then ["cb-request"] else []) ++
+    (if (match op with | some (.apiRespond ..) => false | some (.inRequest ..) => false | _ => true) && evs.any isAnswered
+      then ["cb-respond"] else []) ++
+    (if (match op with | some .cleanup => false | _ => true) && !r.dead && r'.dead then ["cb-cleanup"] else []) ++
+    (if (match op with | some (.setService ..) => false | some .cleanup => false | _ => true) && !r'.dead && r.services != r'.services
+      then ["svc-changed-in-cb"] else []) ++
+    (if !r.pending.isEmpty && r'.pending.isEmpty && !r'.dead then ["all-completed"] else []) ++
+    (if r.timerOn && !r'.timerOn then ["timer-disabled"] else []) ++
+    (if r.srv.tobe.length > r'.srv.tobe.length && (match op with | none => true | _ => false) then ["respond-timeout"] else [])
+  t.map (pre ++ ·)
 
-def showWEvs (svc : Service) (es : List REv) : String :=
-  if es.isEmpty then "-" else " ".intercalate (es.map fun
-    | .sent id => s!"s{id}:{svcTok svc}"
-    | .fired t c => s!"f{t}:{c}")
+def checkOverflow (evs : List REv) : Except String Unit :=
+  if evs.contains .overflow then .error "model: nesting budget exhausted" else .ok ()
 
-def showSEvs (es : List SEv) : String :=
-  if es.isEmpty then "-" else " ".intercalate (es.map fun
-    | .called id => s!"c{id}"
-    | .sent id c => s!"r{id}:{c}")
+def msMax : Nat := 100000
+
+def rpcOp (k : Kind) (r : Rpc) (defs : Bool) (ws : List String) (impl : String) :
+    Option (Except String (CaseSt × List String)) :=
+  let finish (r' : Rpc) (evs : List REv) (tags : List String) : Except String (CaseSt × List String) := do
+    checkOverflow evs
+    let want := "P ev " ++ showEvs evs
+    if impl.trimAscii.toString = want then .ok (.rpc k r' false, tags) else .error s!"expected '{want}' got '{impl.trimAscii.toString}'"
+  match (if defs then defLine? r.prog ws else none) with
+  | some p =>
+      some (if impl.trimAscii.toString = "P def" then .ok (.rpc k { r with prog := p } true, ["def"])
+            else .error s!"expected 'P def' got '{impl.trimAscii.toString}'")
+  | none =>
+    match ws with
+    | ["adv", ms] => do
+        let ms ← digits? ms msMax
+        let (r', evs) := r.advanceAll ms
+        let tags := opTags "" r none r' evs ++
+          (if evs.any isTimeout then [] else (if r.timerOn then ["adv-no-timeout"] else ["adv-timer-off"]))
+        some (finish r' evs tags)
+    | _ => do
+        let op ← peerOp? ws
+        let (r', evs) := step r op
+        some (finish r' evs (opTags "" r (some op) r' evs))
 
 def queue? : String → Option Bool
-  | "cs" => some true
-  | "sc" => some false
+  | "ab" => some true
+  | "ba" => some false
   | _ => none
 
-def worldOp (w : World) (ws : List String) (impl : String) : Option (Except String (CaseSt × List String)) :=
-  let finish (w' : World) (svc : Service) (cevs : List REv) (sevs : List SEv) (tags : List String) :
-      Except String (CaseSt × List String) :=
-    let want := "P ev " ++ showWEvs svc cevs ++ " | " ++ showSEvs sevs
-    if impl.trimAscii.toString = want then .ok (.world w', tags)
+def worldOp (w : World) (defs : Bool) (ws : List String) (impl : String) : Option (Except String (CaseSt × List String)) :=
+  let finish (w' : World) (aevs bevs : List REv) (tags : List String) : Except String (CaseSt × List String) := do
+    checkOverflow aevs; checkOverflow bevs
+    let want := "P ev " ++ showEvs aevs ++ " | " ++ showEvs bevs
+    if impl.trimAscii.toString = want then .ok (.world w' false, tags)
     else .error s!"expected '{want}' got '{impl.trimAscii.toString}'"
-  let stepTags (op : WOp) (cevs : List REv) (sevs : List SEv) : List String :=
-    (match op with
-     | .request c _ => [if c then "w-req-chain" else "w-req"]
-     | .notify _ => ["w-notify"]
-     | .deliver true i => [if i < w.c2s.length then (if i == 0 then "w-dlv-req" else "w-dlv-req-reordered") else "w-dlv-none"]
-     | .deliver false i => [if i < w.s2c.length then (if cevs.isEmpty then "w-dlv-rsp-ignored" else "w-dlv-rsp-hit") else "w-dlv-none"]
-     | .drop _ _ => ["w-drop"]
-     | .dup _ _ => ["w-dup"]
-     | .srespond id _ => [if sevs.isEmpty then "w-srsp-id0" else if w.v.tobe.contains id then "w-srsp-awaited" else "w-srsp-unawaited"]
-     | _ => []) ++
-    (if sevs.any (fun | .sent _ c => c == kMethodNotFound | _ => false) then ["w-method-not-found"] else []) ++
-    (if sevs.any (fun | .called 0 => true | _ => false) then ["w-notification-served"] else [])
-  let doStep (op : WOp) (svc : Service) : Option (Except String (CaseSt × List String)) :=
-    let (w', cevs, sevs) := w.step op
-    some (finish w' svc cevs sevs (stepTags op cevs sevs))
-  match ws with
-  | ["req", c, m] => do
-      let svc ← svc? m
-      if c == "0" || c == "1" then doStep (.request (c == "1") svc) svc else none
-  | ["note", m] => do let svc ← svc? m; doStep (.notify svc) svc
-  | ["dlv", q, i] => do let q ← queue? q; let i ← i.toNat?; doStep (.deliver q i) chainSvc
-  | ["drop", q, i] => do let q ← queue? q; let i ← i.toNat?; doStep (.drop q i) chainSvc
-  | ["dup", q, i] => do let q ← queue? q; let i ← i.toNat?; doStep (.dup q i) chainSvc
-  | ["srsp", id, code] => do
-      let id ← int32? id; let code ← int32? code
-      doStep (.srespond id code) chainSvc
-  | ["adv", ms] => do
-      let ms ← ms.toNat?
-      if ms > 100000 then none else
-      let (w', cevs) := w.advance ms
-      let tags := (if cevs.any (fun | .fired _ c => c == kRequestTimeout | _ => false) then ["w-timeout-fired"] else ["w-adv"]) ++
-                  (if w.v.tobe.length > w'.v.tobe.length then ["w-respond-timeout"] else [])
-      some (finish w' chainSvc cevs [] tags)
-  | _ => none
+  let doStep (op : WOp) (tags : List String) : Option (Except String (CaseSt × List String)) :=
+    let (w', aevs, bevs) := w.step op
+    let peerOf (onB : Bool) : Option Op :=
+      match op with
+      | .api b o => if b == onB then some o else none
+      | .deliver toB i => if toB == onB then ((if toB then w.ab[i]? else w.ba[i]?).map Msg.op) else none
+      | _ => none
+    let ta := match peerOf false with | some o => opTags "w-" w.a (some o) w'.a aevs | none => []
+    let tb := match peerOf true with | some o => opTags "w-" w.b (some o) w'.b bevs | none => []
+    some (finish w' aevs bevs (tags ++ ta ++ tb))
+  match (if defs then defLine? w.a.prog ws else none) with
+  | some p =>
+      some (if impl.trimAscii.toString = "P def" then
+              .ok (.world { w with a := { w.a with prog := p }, b := { w.b with prog := p } } true, ["def"])
+            else .error s!"expected 'P def' got '{impl.trimAscii.toString}'")
+  | none =>
+    match ws with
+    | "a" :: rest => do let op ← peerOp? rest; doStep (.api false op) []
+    | "b" :: rest => do let op ← peerOp? rest; doStep (.api true op) []
+    | ["dlv", q, i] => do
+        let q ← queue? q; let i ← digits? i 999999999
+        let n := (if q then w.ab else w.ba).length
+        doStep (.deliver q i) [if i < n then (if i == 0 then "w-dlv" else "w-dlv-reordered") else "w-dlv-none"]
+    | ["drop", q, i] => do let q ← queue? q; let i ← digits? i 999999999; doStep (.drop q i) ["w-drop"]
+    | ["dup", q, i] => do let q ← queue? q; let i ← digits? i 999999999; doStep (.dup q i) ["w-dup"]
+    | ["adv", ms] => do
+        let ms ← digits? ms msMax
+        let (w', aevs, bevs) := w.advance ms
+        some (finish w' aevs bevs (["w-adv"] ++ opTags "w-" w.a none w'.a aevs ++ opTags "w-" w.b none w'.b bevs))
+    | _ => none
 
 structure DSt where
   ops  : List String := []     -- reversed
@@ -362,7 +430,7 @@ def processCase (ops impl : List String) : List String :=
           | .fresh, ["rpc", k, n] =>
               let mk (kd : Kind) (n : Nat) : Option (Except String (CaseSt × List String)) :=
                 if 1 ≤ n ∧ n ≤ 8 then
-                  some (if iw == ["P", "rpc"] then Except.ok (CaseSt.rpc kd (Rpc.init n), ["rpc-open"])
+                  some (if iw == ["P", "rpc"] then Except.ok (CaseSt.rpc kd (Rpc.init n) true, ["rpc-open"])
                         else Except.error s!"expected 'P rpc' got {il}")
                 else none
               (match k, n.toNat? with
@@ -374,14 +442,14 @@ def processCase (ops impl : List String) : List String :=
               (match nc.toNat?, ns.toNat? with
                | some nc, some ns =>
                  if 1 ≤ nc ∧ nc ≤ 8 ∧ 1 ≤ ns ∧ ns ≤ 8 ∧ (_k == "H" || _k == "R" || _k == "P") then
-                   some (if iw == ["P", "world"] then Except.ok (CaseSt.world { c := Rpc.init nc, v := Srv.init ns }, ["world-open"])
+                   some (if iw == ["P", "world"] then Except.ok (CaseSt.world { a := Rpc.init nc, b := Rpc.init ns } true, ["world-open"])
                          else Except.error s!"expected 'P world' got {il}")
                  else none
                | _, _ => none)
           | .fresh, _ => (framingOp {} ws iw).map (·.map fun (f, t) => (.framing f, t))
           | .framing f, _ => (framingOp f ws iw).map (·.map fun (f, t) => (.framing f, t))
-          | .rpc k r, _ => rpcOp k r ws il
-          | .world w, _ => worldOp w ws il
+          | .rpc k r d, _ => rpcOp k r d ws il
+          | .world w d, _ => worldOp w d ws il
         match res with
         | none =>
             if iw == ["bad-op"] then "ok bad-op" :: go st ops' impl' fuel
